@@ -229,6 +229,10 @@ def run_job(job, tier):
         r, name = _with_raising_pass(k, lambda: pipeline.analyze(prog, options(tier)))
         r["abort_pass"] = name
         r["abort_index"] = k
+        if r["status"] == "export_failed" and "injected failure" not in str(r.get("reason")):
+            # the program cannot be exported at all (its own, loud, failure): not an abort matter
+            r["status"] = "raised"
+            return r
         if r["status"] == "export_failed":
             # default policy must swallow optimizer failures
             r["status"] = "violation"
